@@ -59,8 +59,11 @@ def prng1(ctx, fi: FuncInfo, rule: str = "PRNG-1") -> int:
         line = ev.line_of.get(s.uid, fi.lineno)
         _, pos, kws = call_parts(s)
         problems = []
-        if len(pos) != 1 or kws:
-            raise AnalysisError(f"{fi.qualname}:{line} random.split with num= is not modelled")
+        num = kws.get("num", pos[1] if len(pos) > 1 else None)
+        if num is not None and not (num.op == "const" and num.args[0] == 2):
+            raise AnalysisError(f"{fi.qualname}:{line} random.split with num != 2 is not modelled")
+        if not pos or set(kws) - {"num"}:
+            raise AnalysisError(f"{fi.qualname}:{line} unmodelled random.split call")
         K = pos[0]
         new_key = getitem(s, const(0))
         subkey = getitem(s, const(1))
